@@ -624,4 +624,81 @@ Section DecoderProofs.
     rewrite R in R1. inversion R1; subst.
     pose proof (pull_length _ _ _ _ _ P) as [Len _]. destruct (clamp_le d n Hp). lia.
   Qed.
+
+  (* ---------------------------------------------------------------- *)
+  (* From the chunks an inner decoder yields to what the API returns.  *)
+
+  (* the inner decoder, started in (s, c), yields these non-empty chunks in order *)
+  Inductive chunks_from : st -> cbs -> list (list N) -> Prop :=
+  | chunks_nil s c : chunks_from s c []
+  | chunks_cons s c ch s' c' rest :
+      dread s c = Ok (ch, s', c') -> ch <> [] -> nlen ch <= max_read ->
+      chunks_from s' c' rest -> chunks_from s c (ch :: rest).
+
+  Lemma pull_chunks chs : forall s c (d : dec) w,
+    chunks_from s c chs -> d_inner d = s -> d_cb d = c -> d_failed d = false ->
+    w <= nlen (d_outbuf d ++ concat chs) ->
+    exists k d', pull k w d = Some (firstn_N w (d_outbuf d ++ concat chs), d').
+  Proof.
+    induction chs as [|ch rest IH]; intros s c d w Hc Hi Hcb Hf Hw.
+    - (* no more chunks known: w is within the buffer *)
+      cbn [concat] in *. rewrite app_nil_r in *.
+      destruct (N.eq_dec w 0) as [->|Hw0].
+      { exists O, d. rewrite pull_0, firstn_N_0. reflexivity. }
+      assert (E0 : (w =? 0) = false) by (apply N.eqb_neq; exact Hw0).
+      destruct (skipn_N_cases w (d_outbuf d)) as [[L Es]|[L (y & ys & Es)]].
+      + destruct (Hd (d_inner d) (d_cb d)) as (ch & s' & c' & E & Hlen).
+        assert (Em : (max_read <? nlen ch) = false) by (apply N.ltb_ge; exact Hlen).
+        exists 2%nat. rewrite pull_S. cbv zeta. rewrite E0, Hf, Es, E, Em.
+        destruct ch as [|z zs]; [eauto|].
+        replace (w - nlen (firstn_N w (d_outbuf d))) with 0 by (rewrite nlen_firstn_N; lia).
+        rewrite pull_0, app_nil_r. eauto.
+      + exists 2%nat. rewrite pull_S. cbv zeta. rewrite E0, Hf, Es.
+        replace (w - nlen (firstn_N w (d_outbuf d))) with 0 by (rewrite nlen_firstn_N; lia).
+        rewrite pull_0, app_nil_r. eauto.
+    - inversion Hc as [|? ? ? s' c' ? Edr Hne Hlen Hrest]; subst.
+      cbn [concat] in *.
+      destruct (N.eq_dec w 0) as [->|Hw0].
+      { exists O, d. rewrite pull_0, firstn_N_0. reflexivity. }
+      assert (E0 : (w =? 0) = false) by (apply N.eqb_neq; exact Hw0).
+      destruct (skipn_N_cases w (d_outbuf d)) as [[L Es]|[L (y & ys & Es)]].
+      + (* the buffer is used up: the next chunk is fetched *)
+        assert (Em : (max_read <? nlen ch) = false) by (apply N.ltb_ge; exact Hlen).
+        destruct (IH s' c' (set_buf d s' c' ch false) (w - nlen (d_outbuf d)) Hrest) as (k & d' & P);
+          try reflexivity.
+        { cbn [set_buf d_outbuf]. rewrite !nlen_app in *. lia. }
+        cbn [set_buf d_outbuf] in P.
+        exists (S k), d'. rewrite pull_S. cbv zeta. rewrite E0, Hf, Es, Edr, Em.
+        destruct ch as [|z zs]; [congruence|].
+        rewrite (firstn_N_all w (d_outbuf d)) by lia. rewrite P.
+        rewrite (firstn_N_app_r w (d_outbuf d)) by lia. reflexivity.
+      + exists 2%nat. rewrite pull_S. cbv zeta. rewrite E0, Hf, Es.
+        replace (w - nlen (firstn_N w (d_outbuf d))) with 0 by (rewrite nlen_firstn_N; lia).
+        rewrite pull_0, app_nil_r. rewrite firstn_N_app_l by lia. eauto.
+  Qed.
+
+  (* What the API returns for an inner decoder that yields the chunks [chs]:
+     any read schedule whose sizes add up to at least the declared length L
+     returns exactly the first L bytes of the chunks, provided they hold L bytes. *)
+  Theorem decode_of_chunks_proof : forall chs s c L ks os d',
+    chunks_from s c chs -> L <= nlen (concat chs) -> L <= sum_N ks -> sum_N ks < 2 ^ 62 ->
+    run_reads (lha_decoder_new s c L) ks = Ok (os, d') ->
+    concat os = firstn_N L (concat chs).
+  Proof.
+    intros chs s c L ks os d' Hc HL Hk Hs Hr.
+    set (d0 := lha_decoder_new s c L) in *.
+    assert (Hp : pos_ok d0) by (unfold pos_ok; cbn; lia).
+    destruct (reads_compose_proof ks d0 Hp eq_refl Hs) as (os0 & d0' & R0 & Rs & _).
+    rewrite Hr in R0. inversion R0; subst os0 d0'; clear R0.
+    destruct (read_spec_off d0 (sum_N ks) Hs eq_refl) as (k & o & d1 & P & R).
+    rewrite Rs in R. inversion R; subst; clear R.
+    assert (Ec : clamp d0 (sum_N ks) = L).
+    { unfold clamp, d0. cbn [lha_decoder_new d_stream_length d_stream_pos].
+      destruct (N.ltb_spec L (0 + sum_N ks)); lia. }
+    rewrite Ec in P.
+    destruct (pull_chunks chs s c d0 L Hc eq_refl eq_refl eq_refl) as (k2 & d2 & P2).
+    { cbn. exact HL. }
+    cbn [d0 lha_decoder_new d_outbuf app] in P2.
+    pose proof (pull_det _ _ _ _ _ _ P P2) as E. inversion E. reflexivity.
+  Qed.
 End DecoderProofs.
